@@ -9,7 +9,9 @@ MANIFEST = {
              "Per Go type, on the implementation: every accepted nil-able source type (untyped nil, nil pointer to each accepted type, nil slice / map, pointer to nil "
              "slice / map) of every codec must encode to nil without error; NULL and empty input decoded into every accepted destination type pre-filled with a non-zero "
              "value must report wasNull, leave the zero value and raise no error; generated and directed values with NULLs inside containers must round-trip in v3+ and be "
-             "refused in v2. The model is compared with the real code on the same cases inside coqc."),
+             "refused in v2. Re-used destinations: a value with a NULL at each element / field / map-value position (and a NULL / empty whole value) is decoded into a "
+             "variable of every container representation that already holds a non-NULL value there; nothing of the old value may survive (model-free predicate, and the "
+             "Go-representation model on the same cases). The model is compared with the real code on the same cases inside coqc."),
     "technique": "Rocq proof over a hand-written model + model/code correspondence + directed evaluation of the NULL contract on every accepted Go type",
     "design_ref": "3 C14",
     "note": "The per-Go-type switches are evaluated on the implementation (harness `cql null`), not translated; the nil detection of the integer codecs' type switches is also C13's translated subject.",
